@@ -177,12 +177,18 @@ def opOf (op : String) (ts : List String) : Option (Nat × AllocTree) :=
   | "vec_znx_rsh_assign" => some (rshTmp n, treeRsh n)
   | "vec_znx_lsh" => some (lshTmp n, treeLsh n)
   | "vec_znx_rsh" => some (rshTmp n, treeRsh n)
+  | "vec_znx_lsh_add_into" => some (lshTmp n, treeLsh n)
+  | "vec_znx_lsh_sub" => some (lshTmp n, treeLsh n)
+  | "vec_znx_rsh_add_into" => some (rshTmp n, treeRsh n)
+  | "vec_znx_rsh_sub" => some (rshTmp n, treeRsh n)
   | "vec_znx_rotate_assign" => some (oneLimbTmp n, treeOneLimb n)
   | "vec_znx_automorphism_assign" => some (oneLimbTmp n, treeOneLimb n)
   | "vec_znx_mul_xp_minus_one_assign" => some (oneLimbTmp n, treeOneLimb n)
   | "vec_znx_split_ring" => some (oneLimbTmp n, treeOneLimb n)
   | "vec_znx_merge_rings" => some (oneLimbTmp n, treeOneLimb n)
   | "vec_znx_big_normalize" => some (bigNormTmp be n, treeBigNormalize be n)
+  | "vec_znx_big_normalize_add_assign" => some (bigNormTmp be n, treeBigNormalize be n)
+  | "vec_znx_big_normalize_sub_assign" => some (bigNormTmp be n, treeBigNormalize be n)
   | "vec_znx_big_automorphism_assign" => some (bigAutoTmp be n, treeBigAuto be n)
   | "vec_znx_idft_apply" => some (idftTmp be n, treeIdft be n)
   | "vmp_prepare" => some (vmpPrepTmp be n, treeVmpPrepare be n)
@@ -209,6 +215,8 @@ def opOf (op : String) (ts : List String) : Option (Nat × AllocTree) :=
   | "glwe_rsh" => some (tbGlweShift n, treeGlweRsh n)
   | "glwe_lsh" => some (tbGlweShift n, treeGlweLsh n)
   | "glwe_lsh_assign" => some (tbGlweShift n, treeGlweLsh n)
+  | "glwe_lsh_add" => some (tbGlweShift n, treeGlweLsh n)
+  | "glwe_lsh_sub" => some (tbGlweShift n, treeGlweLsh n)
   | "glwe_rotate_assign" => some (tbGlweRotate n, treeGlweRotateAssign n)
   | "glwe_mul_xp_minus_one_assign" => some (tbGlweRotate n, treeOneLimb n)
   | "glwe_keyswitch" => some (tbGlweKeyswitch be n res a k, treeGlweKeyswitch be n res a k)
